@@ -1,12 +1,14 @@
 (* Model of /repo/src/tmap.c: the (sample id, UTC) anchor table of an FSR signal and
    the two conversions sample id -> time, time -> sample id.
 
-   What is modelled, line by line:
+   What is modelled, line by line (CURRENT code, i.e. with /repo commits 4ae268d and 768bbbf):
      jls_tmap_alloc                    tmap_alloc
      jls_tmap_add                      tmap_add      (growth, duplicate overwrite, rejection)
-     interp_i64                        search_loop + clamp + interp_at
+     interp_i64                        search (search_loop + clamp) + interp_at
      jls_tmap_sample_id_to_timestamp   tmap_sample_id_to_timestamp
      jls_tmap_timestamp_to_sample_id   tmap_timestamp_to_sample_id
+   The code before those two repairs is kept at the end of the file as *_old, as
+   documentation of the defects (over-read of x[entries_length]; 0/0 on equal UTC times).
 
    Memory: the two arrays sample_id[] / utc[] hold `length entries` initialised cells.
    `alloc` is entries_alloc, `phys` is the number of 8-byte cells the heap objects really
@@ -14,14 +16,15 @@
    realloc(entries_alloc * sizeof(struct jls_utc_summary_entry_s)) gives 16 bytes per entry,
    i.e. phys = 2 * alloc after the first growth.  A read at an index in [length, phys) returns
    uninitialised heap content, modelled by the parameter `junk` (any value); a read at an
-   index >= phys is outside the heap object: Fault OOB_read.
+   index >= phys is outside the heap object: Fault OOB_read.  The current code never reads at
+   an index >= length (search_total); only the old code did.
 
    Arithmetic: the C computes in binary64.  The model computes the same expressions, in
    the same order, with the same rounding function (round() = half away from zero, the
    cast (int64_t) = truncation), over Q exactly.  The difference between binary64 and Q
    evaluation is NOT modelled (see TmapProofs.v, section "binary64 gap").
-   int64 overflow of the C subtractions/additions and a cast of a non-finite or
-   out-of-range double to int64 are undefined behaviour in C: distinct Fault results.
+   int64 overflow of the C subtractions/additions and a cast of an out-of-range double to
+   int64 are undefined behaviour in C: Fault Int_overflow.
 
    Definitions only; proofs are in TmapProofs.v. *)
 From Coq Require Import ZArith QArith List Bool Arith.
@@ -30,10 +33,10 @@ Import ListNotations.
 Local Open Scope Z_scope.
 
 Inductive fault : Set :=
-| OOB_read        (* read outside the heap object *)
-| FP_invalid      (* division by zero in double, result NaN/inf converted to int64 (UB) *)
+| OOB_read        (* read outside the heap object (old code only) *)
+| FP_invalid      (* division by zero in double, result NaN/inf converted to int64 (UB; old code only) *)
 | Int_overflow    (* signed 64-bit overflow or out-of-range double -> int64 cast (UB) *)
-| Nonterm.        (* fuel exhausted: never happens, see search_fuel_enough *)
+| Nonterm.        (* fuel exhausted: never happens (search_total, search_loop_ok) *)
 
 Inductive res (A : Type) : Type :=
 | Ok (a : A)
@@ -106,7 +109,7 @@ Definition rd (junk : Z) (ph : nat) (xs : list Z) (i : nat) : res Z :=
   else if (i <? ph)%nat then Ok junk
   else Fault OOB_read.
 
-(* ---- interp_i64: the binary search, exactly as written ----
+(* ---- interp_i64: the binary search_old, exactly as written ----
      low = 0; high = entries_length;
      while (low < high) { mid = (low + high + 1) / 2;
         if (x0 == x[mid]) { low = mid; break; }
@@ -131,12 +134,6 @@ Fixpoint search_loop (fuel : nat) (junk : Z) (ph : nat) (xs : list Z) (x0 : Z) (
 Definition clamp (len low : nat) : nat :=
   if (len - 1 <=? low)%nat then (len - 2)%nat else low.
 
-Definition search (junk : Z) (ph : nat) (xs : list Z) (x0 : Z) : res nat :=
-  match search_loop (S (length xs)) junk ph xs x0 0%nat (length xs) with
-  | Fault e => Fault e
-  | Ok low => Ok (clamp (length xs) low)
-  end.
-
 (* ---- rounding functions of the C, on Q ---- *)
 (* round(): nearest integer, halfway cases away from zero *)
 Definition Qround_haz (q : Q) : Z :=
@@ -148,11 +145,27 @@ Definition Qtrunc (q : Q) : Z := Z.quot (Qnum q) (Zpos (Qden q)).
 
 Definition in64 (v : Z) : bool := (- 2 ^ 63 <=? v) && (v <? 2 ^ 63).
 
-(* ---- interp_i64: the interpolation at segment [low, low+1] ----
+(* ---- interp_i64, current code: the binary search over the valid indices ----
+     low = 0; high = entries_length - 1;           (entries_length >= 2 here)
+     while (low < high) { mid = (low + high + 1) / 2;
+        if (x0 == x[mid]) { low = mid; break; }
+        else if (x0 < x[mid]) high = mid - 1; else if (x0 > x[mid]) low = mid; }
+     if (low >= entries_length - 1) low = entries_length - 2;
+   search_loop is shared with the old code; it is run with physical size 0, i.e. ANY read at
+   an index >= length would be Fault OOB_read (proved never to happen: search_total). ---- *)
+Definition search (xs : list Z) (x0 : Z) : res nat :=
+  match search_loop (length xs) 0 0%nat xs x0 0%nat (length xs - 1)%nat with
+  | Fault e => Fault e
+  | Ok low => Ok (clamp (length xs) low)
+  end.
+
+(* ---- interp_i64, current code: the interpolation at segment [low, low+1] ----
      dk = (double)(x0 - x[low]); ds = (double)(x[low+1] - x[low]); dt = (double)(y[low+1] - y[low]);
+     if (ds == 0.0) return y[low];
      slope = dt / ds;  k = (int64_t) round(dk * slope);  return y[low] + k;              *)
 Definition interp_k (dk ds dt : Z) : Z :=
   Qround_haz (inject_Z dk * (inject_Z dt / inject_Z ds))%Q.
+
 
 Definition interp_at (xs ys : list Z) (low : nat) (x0 : Z) : res Z :=
   let xl := nth low xs 0 in
@@ -161,14 +174,14 @@ Definition interp_at (xs ys : list Z) (low : nat) (x0 : Z) : res Z :=
   let ds := nth (S low) xs 0 - xl in
   let dt := nth (S low) ys 0 - yl in
   if negb (in64 dk && in64 ds && in64 dt) then Fault Int_overflow
-  else if ds =? 0 then Fault FP_invalid
+  else if ds =? 0 then Ok yl
   else
     let k := interp_k dk ds dt in
     if negb (in64 k && in64 (yl + k)) then Fault Int_overflow
     else Ok (yl + k).
 
-Definition interp (junk : Z) (ph : nat) (xs ys : list Z) (x0 : Z) : res Z :=
-  match search junk ph xs x0 with
+Definition interp (xs ys : list Z) (x0 : Z) : res Z :=
+  match search xs x0 with
   | Fault e => Fault e
   | Ok low => interp_at xs ys low x0
   end.
@@ -197,73 +210,24 @@ Definition single_time_to_id (r : Q) (s0 u0 q : Z) : res Z :=
 
 Definition rate_positive (r : Q) : bool := 0 <? Qnum r.
 
-(* ---- jls_tmap_sample_id_to_timestamp ---- *)
-Definition tmap_sample_id_to_timestamp (junk : Z) (t : tmap) (q : Z) : qres :=
+(* ---- jls_tmap_sample_id_to_timestamp (current code) ---- *)
+Definition tmap_sample_id_to_timestamp (t : tmap) (q : Z) : qres :=
   match entries t with
   | [] => QErr TMAP_ERROR_UNAVAILABLE
   | [(s0, u0)] =>
       if rate_positive (rate t) then qres_of (single_id_to_time (rate t) s0 u0 q)
       else QErr TMAP_ERROR_UNAVAILABLE
-  | _ => qres_of (interp junk (phys t) (ids t) (times t) q)
+  | _ => qres_of (interp (ids t) (times t) q)
   end.
 
-(* ---- jls_tmap_timestamp_to_sample_id ---- *)
-Definition tmap_timestamp_to_sample_id (junk : Z) (t : tmap) (q : Z) : qres :=
+(* ---- jls_tmap_timestamp_to_sample_id (current code) ---- *)
+Definition tmap_timestamp_to_sample_id (t : tmap) (q : Z) : qres :=
   match entries t with
   | [] => QErr TMAP_ERROR_UNAVAILABLE
   | [(s0, u0)] =>
       if rate_positive (rate t) then qres_of (single_time_to_id (rate t) s0 u0 q)
       else QErr TMAP_ERROR_UNAVAILABLE
-  | _ => qres_of (interp junk (phys t) (times t) (ids t) q)
-  end.
-
-(* ---- the model of the minimally repaired code (see the final report of the slice):
-     -    size_t high = self->entries_length;
-     +    size_t high = self->entries_length - 1;          (no read of x[length])
-     +    if (ds == 0.0) { return y[low]; }                  (no 0/0, inf cast)
-   Proved in TmapProofs.v: on sorted ids it returns exactly what the present code returns
-   whenever the present code does not fault, and it never reads outside the entries. ---- *)
-Definition search_fixed (xs : list Z) (x0 : Z) : res nat :=
-  match search_loop (length xs) 0 0%nat xs x0 0%nat (length xs - 1)%nat with
-  | Fault e => Fault e
-  | Ok low => Ok (clamp (length xs) low)
-  end.
-
-Definition interp_at_fixed (xs ys : list Z) (low : nat) (x0 : Z) : res Z :=
-  let xl := nth low xs 0 in
-  let yl := nth low ys 0 in
-  let dk := x0 - xl in
-  let ds := nth (S low) xs 0 - xl in
-  let dt := nth (S low) ys 0 - yl in
-  if negb (in64 dk && in64 ds && in64 dt) then Fault Int_overflow
-  else if ds =? 0 then Ok yl
-  else
-    let k := interp_k dk ds dt in
-    if negb (in64 k && in64 (yl + k)) then Fault Int_overflow
-    else Ok (yl + k).
-
-Definition interp_fixed (xs ys : list Z) (x0 : Z) : res Z :=
-  match search_fixed xs x0 with
-  | Fault e => Fault e
-  | Ok low => interp_at_fixed xs ys low x0
-  end.
-
-Definition tmap_sample_id_to_timestamp_fixed (t : tmap) (q : Z) : qres :=
-  match entries t with
-  | [] => QErr TMAP_ERROR_UNAVAILABLE
-  | [(s0, u0)] =>
-      if rate_positive (rate t) then qres_of (single_id_to_time (rate t) s0 u0 q)
-      else QErr TMAP_ERROR_UNAVAILABLE
-  | _ => qres_of (interp_fixed (ids t) (times t) q)
-  end.
-
-Definition tmap_timestamp_to_sample_id_fixed (t : tmap) (q : Z) : qres :=
-  match entries t with
-  | [] => QErr TMAP_ERROR_UNAVAILABLE
-  | [(s0, u0)] =>
-      if rate_positive (rate t) then qres_of (single_time_to_id (rate t) s0 u0 q)
-      else QErr TMAP_ERROR_UNAVAILABLE
-  | _ => qres_of (interp_fixed (times t) (ids t) q)
+  | _ => qres_of (interp (times t) (ids t) q)
   end.
 
 (* ---- helpers for statements and for the correspondence driver ---- *)
@@ -297,3 +261,60 @@ Definition exact_at (xs ys : list Z) (c : nat) (x0 : Z) : Q :=
   (inject_Z yl + inject_Z dk * (inject_Z dt / inject_Z ds))%Q.
 
 Definition all_in (B : Z) (l : list Z) : Prop := Forall (fun v => - B <= v <= B) l.
+
+(* ======================================================================================
+   The code before the two repairs (/repo commits 4ae268d "high = entries_length - 1" and
+   768bbbf "if (ds == 0.0) return y[low]"), kept as documentation of the fixed defects:
+     - the bisection started with high = entries_length and could read x[entries_length]:
+       uninitialised heap (`junk`) below capacity, outside the heap object (Fault OOB_read)
+       with exactly ENTRIES_ALLOC_INIT entries;
+     - a zero-width segment (two equal UTC times) divided by zero in double and cast
+       NaN/inf to int64 (Fault FP_invalid).
+   TmapProofs.v: tmap_old_oob_refuted, tmap_old_oob_iff, tmap_old_equal_times_refuted, and
+   tmap_eq_old (the current code returns what the old code returned wherever that was defined).
+   ====================================================================================== *)
+Definition search_old (junk : Z) (ph : nat) (xs : list Z) (x0 : Z) : res nat :=
+  match search_loop (S (length xs)) junk ph xs x0 0%nat (length xs) with
+  | Fault e => Fault e
+  | Ok low => Ok (clamp (length xs) low)
+  end.
+
+Definition interp_at_old (xs ys : list Z) (low : nat) (x0 : Z) : res Z :=
+  let xl := nth low xs 0 in
+  let yl := nth low ys 0 in
+  let dk := x0 - xl in
+  let ds := nth (S low) xs 0 - xl in
+  let dt := nth (S low) ys 0 - yl in
+  if negb (in64 dk && in64 ds && in64 dt) then Fault Int_overflow
+  else if ds =? 0 then Fault FP_invalid
+  else
+    let k := interp_k dk ds dt in
+    if negb (in64 k && in64 (yl + k)) then Fault Int_overflow
+    else Ok (yl + k).
+
+Definition interp_old (junk : Z) (ph : nat) (xs ys : list Z) (x0 : Z) : res Z :=
+  match search_old junk ph xs x0 with
+  | Fault e => Fault e
+  | Ok low => interp_at_old xs ys low x0
+  end.
+
+(* jls_tmap_sample_id_to_timestamp, old code *)
+Definition tmap_sample_id_to_timestamp_old (junk : Z) (t : tmap) (q : Z) : qres :=
+  match entries t with
+  | [] => QErr TMAP_ERROR_UNAVAILABLE
+  | [(s0, u0)] =>
+      if rate_positive (rate t) then qres_of (single_id_to_time (rate t) s0 u0 q)
+      else QErr TMAP_ERROR_UNAVAILABLE
+  | _ => qres_of (interp_old junk (phys t) (ids t) (times t) q)
+  end.
+
+(* jls_tmap_timestamp_to_sample_id, old code *)
+Definition tmap_timestamp_to_sample_id_old (junk : Z) (t : tmap) (q : Z) : qres :=
+  match entries t with
+  | [] => QErr TMAP_ERROR_UNAVAILABLE
+  | [(s0, u0)] =>
+      if rate_positive (rate t) then qres_of (single_time_to_id (rate t) s0 u0 q)
+      else QErr TMAP_ERROR_UNAVAILABLE
+  | _ => qres_of (interp_old junk (phys t) (times t) (ids t) q)
+  end.
+
